@@ -2,6 +2,7 @@ package nitrocheck
 
 import (
 	"bytes"
+	"time"
 	"unsafe"
 
 	"github.com/couchbase/nitro"
@@ -37,7 +38,14 @@ func (w *World) WalkStore(sigPrefix string) {
 	if err != nil {
 		w.Failf(sigPrefix+"structure", "store structure: %v", err)
 	}
-	if err := res.CompareStats(sl.Stats.VerifRaw()); err != nil {
+	// the workers merge their local counters into the store's after each list: give a merge in flight
+	// time to land before calling a difference an accounting error
+	err = res.CompareStats(sl.Stats.VerifRaw())
+	for try := 0; try < 100 && err != nil; try++ {
+		time.Sleep(200 * time.Microsecond)
+		err = res.CompareStats(sl.Stats.VerifRaw())
+	}
+	if err != nil {
 		w.Failf(sigPrefix+"stats", "store statistics: %v", err)
 	}
 	if res.Level0Linked != len(w.phys) {
